@@ -928,7 +928,12 @@ where
 
     /// Get the total number of blobs stored
     fn len(&self) -> usize {
-        self.stats.blob_stats.blob_count
+        // Count live records directly: `stats` is only maintained when
+        // `enable_statistics` is set (it is off in `memory_optimized()`).
+        self.record_to_blob_map
+            .iter()
+            .filter(|&&blob_id| blob_id != usize::MAX)
+            .count()
     }
 
     /// Flush any pending operations to storage
